@@ -218,6 +218,10 @@ def run_script(case: dict, backend: str, tmp: str) -> dict:
                 async for ev in agen:
                     seg["got"].append([ev.sequence, ev.event.value.get("uid"), ev.run_id, started[0]])
                     obs["trace"].append(["S", seg["sub"], ev.sequence])
+                    if len(seg["got"]) > len(case["events"]) + 3:
+                        seg["end"] = "runaway"  # more deliveries than stored events: stop before it loops forever
+                        obs["runaway"] = True
+                        return
                     if limit is not None and len(seg["got"]) >= limit:
                         seg["end"] = "client_count"
                         return
@@ -264,7 +268,7 @@ def run_script(case: dict, backend: str, tmp: str) -> dict:
                     except BaseException:  # noqa: BLE001
                         pass
                     obs["trace"].append(["D", j, seg["end"]])
-                    if seg["end"] == "exhausted":
+                    if seg["end"] in ("exhausted", "runaway"):
                         return
                     if seg["got"] and seg["got"][-1][2] == RUN and isinstance(seg["got"][-1][1], int) \
                             and 0 <= seg["got"][-1][1] < len(case["events"]) \
@@ -468,6 +472,8 @@ def check_store_case(case: dict, acc: Acc, tmp: str, backends=None) -> None:
     outs = {}
     for b in backends or BACKENDS:
         obs = run_script(case, b, tmp)
+        if obs.get("runaway"):
+            acc.note("runaway_subscription")
         outs[b] = obs
         before = len(viols)
         judge(case, obs, acc, lambda sig, what: viols.append((sig, what)))
@@ -556,6 +562,9 @@ def run_shard(shard):
                             "subs": [{"k": s["k"], "start": s["start"], "segs": s["segs"]} for s in case["subs"]]})
             check_store_case(case, acc, tmp)
         for i in range(shard["api"]):
+            if acc.info.get("runaway_subscription"):
+                acc.note("api_layer_skipped_after_runaway_subscription")
+                break
             case = gen_api_case(rnd, shard["tier"])
             acc.case()
             check_api_case(case, acc, tmp)
